@@ -355,7 +355,12 @@ where
         info.set_dirty(true);
         info.set_last_accessed(timestamp);
         info.set_last_modified(timestamp);
-        info.set_policy_weight(policy_weight);
+        // NOTE: Do not update the policy weight here. The policy weight in the
+        // EntryInfo is the weight that the eviction counters currently hold for the
+        // entry; it will be updated when the write op is applied (`handle_upsert`).
+        // Otherwise, removing the entry before that (eviction, expiration) would
+        // subtract a weight that has never been added.
+        let _ = policy_weight;
         TrioArc::new(ValueEntry::new(value, info))
     }
 
@@ -877,8 +882,13 @@ where
 
         if entry.is_admitted() {
             // The entry has been already admitted, so treat this as an update.
-            counters.saturating_sub(0, old_weight);
+            // (`old_weight` was read when the write op was created; other ops for the
+            // key may have been applied or skipped since then, so use the weight the
+            // counters actually hold for the entry.)
+            let _ = old_weight;
+            counters.saturating_sub(0, entry.policy_weight());
             counters.saturating_add(0, new_weight);
+            entry.entry_info().set_policy_weight(new_weight);
             deqs.move_to_back_ao(&entry);
             deqs.move_to_back_wo(&entry);
             return;
@@ -1064,6 +1074,7 @@ where
     ) {
         let key = Arc::clone(&kh.key);
         counters.saturating_add(1, policy_weight);
+        entry.entry_info().set_policy_weight(policy_weight);
         deqs.push_back_ao(
             CacheRegion::MainProbation,
             KeyHashDate::new(kh, entry.entry_info()),
